@@ -102,6 +102,7 @@ fn c10_strategy() -> impl Strategy<Value = Scenario> {
                 freeze: None,
         hold: vec![],
         freeze_polls: false,
+        initial_pending: vec![],
             };
             // fund the HTLC for whatever amount the reference classifier expects
             if let Class::Trampoline { amount, .. } = scn.classify(0) {
